@@ -58,3 +58,71 @@ def is_zero_value(v):
     if isinstance(v, ast.Call) and U.call_name(v) in ('np.zeros', 'np.zeros_like'):
         return True
     return False
+
+
+# ---------------------------------------------------------------------------------------------- nucleationBarrier paths
+def _gb_test(t):
+    """(is a test of isGrainBoundaryNucleation, negated?)"""
+    neg = False
+    while isinstance(t, ast.UnaryOp) and isinstance(t.op, ast.Not):
+        neg = not neg
+        t = t.operand
+    return ('isGrainBoundaryNucleation' in U.src(t) and isinstance(t, (ast.Attribute, ast.Name, ast.Call))), neg
+
+
+def select_nongb(expr):
+    """the expression as evaluated when the nucleation site is not a grain-boundary type (conditional expressions on
+    isGrainBoundaryNucleation are resolved)"""
+    import copy
+
+    class T(ast.NodeTransformer):
+        def visit_IfExp(self, node):
+            self.generic_visit(node)
+            is_gb, neg = _gb_test(node.test)
+            if is_gb:
+                return node.body if neg else node.orelse
+            return node
+    return T().visit(copy.deepcopy(expr))
+
+
+def nongb_statements(stmts):
+    """statements executed on the non-grain-boundary path through if-statements on isGrainBoundaryNucleation"""
+    out = []
+    for st in stmts:
+        if isinstance(st, ast.If):
+            is_gb, neg = _gb_test(st.test)
+            if is_gb:
+                out += nongb_statements(st.body if neg else st.orelse)
+                continue
+        out.append(st)
+    return out
+
+
+def nongb_stores(fn, skip=('volumeDrivingForce', 'indices', 'Rcrit', 'Gcrit', 'Rmin')):
+    """{array name: (store statement, local definitions in force)} along the non-grain-boundary path of nucleationBarrier"""
+    stores, defs = {}, {}
+    for st in nongb_statements(fn.body):
+        if isinstance(st, ast.Assign) and isinstance(st.targets[0], ast.Name):
+            nm = st.targets[0].id
+            if nm not in U.names_in(st.value) and nm not in skip:
+                defs[nm] = select_nongb(st.value)
+        if isinstance(st, ast.Assign) and isinstance(st.targets[0], ast.Subscript) and isinstance(st.targets[0].value, ast.Name):
+            stores[st.targets[0].value.id] = (st, dict(defs))
+    return stores
+
+
+def bulk_rcrit_proposal(fn):
+    """(expression, statement) of the bulk/dislocation critical-radius proposal: the element of
+    Rcrit[..] = amax([proposal, Rmin[..]]) that is not the minimum radius, locals inlined; (None, None) if not found"""
+    stores = nongb_stores(fn)
+    if 'Rcrit' not in stores:
+        return None, None, False
+    st, defs = stores['Rcrit']
+    v = select_nongb(st.value)
+    if isinstance(v, ast.Call) and U.call_name(v) in ('np.amax', 'np.maximum') and v.args:
+        elts = v.args[0].elts if isinstance(v.args[0], (ast.List, ast.Tuple)) else v.args
+        prop = [select_nongb(inline(e, defs)) for e in elts if 'Rmin' not in U.src(e)]
+        has_min = any('Rmin' in U.src(e) for e in elts)
+        if len(prop) == 1:
+            return prop[0], st, has_min
+    return None, st, False
